@@ -2,6 +2,8 @@
 import itertools
 import json
 
+import numpy as np
+
 import common
 import impl
 import lowering
@@ -95,6 +97,45 @@ def legal(pl):
     return not any(c == "grad" and any(x in ("while", "fori_dyn") for x in pl[i + 1:]) for i, c in enumerate(pl))
 
 
+def traced_key(ctx):
+    """seed called with a TRACED key (jax.vmap over keys, eager and under jit): every lane must be the seeded function of that lane's key,
+    or the call raises - for plain sites and for sites inside constructs seed does not interpret (checkpoint, custom_jvp, custom_vjp, jit, while)"""
+    import jax
+    import jax.numpy as jnp
+    import jax.random as jr
+    from genjax.pjax import LoweringSamplePrimitiveToMLIRException
+    G = impl.load()
+    x = jnp.float32(0.5)
+    keys = jr.split(jr.key(7), 3)
+    for pl in [(), ("scan",), ("cond",), ("checkpoint",), ("custom_jvp",), ("custom_vjp",), ("jit",), ("while",), ("scan", "checkpoint"), ("checkpoint", "scan"),
+               ("cond", "custom_jvp"), ("mvmap", "checkpoint"), ("checkpoint", "mvmap")]:
+        m = model_outcomes(pl)["TT"][1]
+        for mode in ("eager", "jit"):
+            case = {"kind": "traced-key", "placement": list(pl), "mode": mode, "model": m}
+            try:
+                h = G.seed(lowering.build(G, pl))
+                v = jax.vmap(h, in_axes=(0, None))
+                out = np.asarray((jax.jit(v) if mode == "jit" else v)(keys, x), dtype=np.float64)
+                got = "key-function" if len(set(out.tolist())) == out.size else "key-ignored"
+                case["values"] = out.tolist()
+            except LoweringSamplePrimitiveToMLIRException:
+                impl.reset_handlers()
+                got = "lowering-error"
+            except NotImplementedError as ex:
+                impl.reset_handlers()
+                got = "batch-error" if "modular_vmap" in str(ex) else "other-error:NotImplementedError"
+            except Exception as ex:
+                impl.reset_handlers()
+                got = "other-error:" + type(ex).__name__
+            case["outcome"] = got
+            if got not in ("key-function", "lowering-error", "batch-error"):
+                ctx.property_failure(None, f"vmap over keys of seed({'∘'.join(pl) or 'site'}) ({mode}) gives '{got}' - the property requires a function of the key or the lowering error", case)
+            elif got != m:
+                ctx.correspondence_break("Lowering.seeded vs seed with a traced key", f"model says {m}, implementation {got}", case)
+            ctx.case(nontrivial_key=("traced-key", pl, mode))
+            ctx.count("traced-key:" + got)
+
+
 def run(ctx, audit):
     C = lowering.CONSTRUCTS
     all_ = {d: [p for p in itertools.product(C, repeat=d) if legal(p)] for d in range(4)}
@@ -116,6 +157,7 @@ def run(ctx, audit):
     # the Seed interpreter as an interpreter: real jaxprs translated into Model/Interp.lean
     import interp_tie
     interp_tie.run_seed(ctx, 40 if ctx.thorough else 12)
+    traced_key(ctx)
     return {"rule": RULE, "exhaustive": True, "exhaustive_to_depth": exhaustive_depth, "placements": len(pls), "adev_site_placements": len(adev)}
 
 
